@@ -1474,6 +1474,7 @@ def generic_rules(prop, index, rep):
         npc += resized_while_iterated_rule(index, rep, rid5, mods)
         npc += called_method_exists_rule(index, rep, rid5, mods)
         npc += container_formatted_rule(index, rep, rid5, mods)
+        npc += binary_operator_rule(index, rep, rid5, mods)
         rep.ob(rid5, "src/dendropy", "%d in-place operator methods and format calls examined" % npc, True, nontrivial=npc > 0)
     rid6 = "R%s.D" % prop[1:]
     rep.rule(rid6, "literal dispatch chains in the property's modules have no dead branch: no branch of an if/elif chain over string keywords tests only keywords that an earlier branch already accepts")
@@ -1636,6 +1637,40 @@ def container_formatted_rule(index, rep, rid, modules):
                     if isinstance(a, ast.Name) and a.id in conts:
                         rep.check(False, rid, fi.qualname, "container `%s` formatted as text" % a.id, fn_where(fi, b), "",
                                   "%s puts `%s` - bound only to %s and filled in place - into the template %r as it is: what is written is the Python repr of the container (braces, quotes, commas; arbitrary order for a set), not the items" % (fi.qualname, a.id, "/".join(sorted({type(v).__name__ if not isinstance(v, ast.Call) else v.func.id + "()" for v in binds[a.id]})), tmpl[:30]))
+    return n
+
+
+BINARY_DUNDERS = {"__add__", "__sub__", "__or__", "__and__", "__xor__", "__mul__", "__radd__", "__rsub__", "__ror__", "__rand__"}
+
+
+def binary_operator_rule(index, rep, rid, modules):
+    """`a + b` leaves a and b alone: the object a binary operator method returns is built by a constructor (or a deep
+    copy / clone), never `self`, an alias of it, or a shallow `copy.copy(self)` that is then filled in place - the
+    shallow copy shares the receiver's containers, so the operator would silently grow its left operand."""
+    n = 0
+    for m in modules:
+        for f in index.functions_in_module(m):
+            if f.name not in BINARY_DUNDERS or f.cls is None:
+                continue
+            n += 1
+            rets = [r.value for r in walk_no_nested(f.node) if isinstance(r, ast.Return) and r.value is not None]
+            bad = None
+            for v in rets:
+                names = [v.id] if isinstance(v, ast.Name) else []
+                if isinstance(v, ast.Name) and v.id == "self":
+                    bad = (v, "returns `self`")
+                for nm in names:
+                    for st in walk_no_nested(f.node):
+                        if isinstance(st, ast.Assign) and any(isinstance(t, ast.Name) and t.id == nm for t in st.targets):
+                            val = st.value
+                            shallow = (isinstance(val, ast.Name) and val.id == "self") or (isinstance(val, ast.Call) and norm(val.func) in ("copy.copy", "copy") and val.args and norm(val.args[0]) == "self") \
+                                or (isinstance(val, ast.Call) and isinstance(val.func, ast.Attribute) and val.func.attr == "__copy__" and norm(val.func.value) == "self")
+                            if shallow:
+                                grown = [x for x in walk_no_nested(f.node) if (isinstance(x, ast.AugAssign) and norm(x.target) == nm) or (isinstance(x, ast.Call) and isinstance(x.func, ast.Attribute) and norm(x.func.value) == nm and x.func.attr in MUTATORS | {"extend", "update"})]
+                                if grown or isinstance(val, ast.Name):
+                                    bad = (st, "starts from `%s` and fills it in place" % norm(val))
+            rep.check(bad is None, rid, f.qualname, "%s works on the receiver's own containers" % f.name, fn_where(f, bad[0] if bad else None), "%s returns a freshly built object" % f.qualname,
+                      "%s %s: a shallow copy (or the receiver itself) shares the receiver's lists and sub-objects, so `a + b` appends to `a` as well - after it `a` holds the trees of both operands, and every later sum counts them again" % (f.qualname, bad[1] if bad else ""))
     return n
 
 
